@@ -8,16 +8,34 @@ From Arsenal Require Pass Defrag SyncMem.
 Import ListNotations.
 Open Scope Z_scope.
 
+(* resources (buffers, images): the creation counter never goes down, and a resource of the state after either has the id
+   of a resource of the state before or an id the counter has reached since *)
+Definition res_keep (m m' : mach) : Prop :=
+  m_next_res m <= m_next_res m' /\
+  forall r', In r' (m_res m') -> (exists r, In r (m_res m) /\ rs_id r = rs_id r') \/ rs_id r' <= m_next_res m'.
+
+Lemma res_keep_refl m : res_keep m m.
+Proof. split; [lia|]. intros r' H. left. eauto. Qed.
+
+Lemma res_keep_trans a b d : res_keep a b -> res_keep b d -> res_keep a d.
+Proof.
+  intros (A1 & A2) (B1 & B2). split; [lia|]. intros r'' H. destruct (B2 r'' H) as [(r' & H' & E')|Hle]; [|right; exact Hle].
+  destruct (A2 r' H') as [(r & Hr & E)|Hle]; [left; exists r; split; [exact Hr|congruence]|right; lia].
+Qed.
+
+Lemma res_keep_eq m m' : m_res m' = m_res m -> m_next_res m' = m_next_res m -> res_keep m m'.
+Proof. intros E1 E2. split; [lia|]. intros r' H. rewrite E1 in H. left. eauto. Qed.
+
 Definition MS (m m' : mach) : Prop :=
-  m_next m <= m_next m' /\
+  (m_next m <= m_next m' /\ res_keep m m') /\
   forall d', In d' (m_mems m') -> dm_id d' <= m_next m -> exists d, In d (m_mems m) /\ mem_key d = mem_key d'.
 
 Lemma MS_refl m : MS m m.
-Proof. split; [lia|]. intros d' H _. eauto. Qed.
+Proof. split; [split; [lia|apply res_keep_refl]|]. intros d' H _. eauto. Qed.
 
 Lemma MS_trans a b d : MS a b -> MS b d -> MS a d.
 Proof.
-  intros (A1 & A2) (B1 & B2). split; [lia|]. intros x Hx Hi. destruct (B2 x Hx ltac:(lia)) as (y & Hy & Ey).
+  intros ((A1 & A1r) & A2) ((B1 & B1r) & B2). split; [split; [lia|eapply res_keep_trans; eauto]|]. intros x Hx Hi. destruct (B2 x Hx ltac:(lia)) as (y & Hy & Ey).
   assert (Hiy : dm_id y <= m_next a) by (unfold mem_key in Ey; injection Ey as E1 _ _; lia).
   destruct (A2 y Hy Hiy) as (z & Hz & Ez). exists z. split; [exact Hz|congruence].
 Qed.
@@ -29,8 +47,10 @@ Proof.
   destruct H as [->|H]; [exists x; auto|]. destruct (IH _ E2 H) as (d & Hd & Ed). eauto.
 Qed.
 
-Lemma MS_same m m' : mach_same m m' -> MS m m'.
-Proof. intros (A & B). split; [exact B|]. intros d' Hd _. eapply mems_same_in_key; eauto. Qed.
+Lemma MS_same m m' : mach_same m m' -> res_keep m m' -> MS m m'.
+Proof. intros (A & B) R. split; [split; [exact B|exact R]|]. intros d' Hd _. eapply mems_same_in_key; eauto. Qed.
+
+Ltac res_tac := apply res_keep_eq; (cbn; repeat (match goal with |- context [match ?e with _ => _ end] => destruct e | |- context [if ?e then _ else _] => destruct e end; cbn); reflexivity).
 
 Lemma remove_mem_in ms id d : In d (remove_mem ms id) -> In d ms.
 Proof. induction ms as [|x ms IH]; cbn; [tauto|]. destruct (dm_id x =? id); [auto|]. intros [->|H]; auto. Qed.
@@ -40,30 +60,30 @@ Variable c : vcfg.
 
 Lemma free_vk_MS m ty size mem : MS m (fst (free_vk c m ty size mem)).
 Proof.
-  destruct (free_vk_spec c m ty size mem) as (E1 & E2). split; [lia|]. intros d' Hd _. rewrite E1 in Hd. exists d'. split; [eapply remove_mem_in; eauto|reflexivity].
+  destruct (free_vk_spec c m ty size mem) as (E1 & E2). split; [split; [lia|unfold free_vk, dev_free; res_tac]|]. intros d' Hd _. rewrite E1 in Hd. exists d'. split; [eapply remove_mem_in; eauto|reflexivity].
 Qed.
 
 Lemma dev_alloc_MS m ty size ded : MS m (fst (fst (dev_alloc c m ty size ded))).
 Proof.
-  unfold dev_alloc. destruct (negb _); [apply MS_same; apply mach_same_log|]. destruct (size <=? 0); [apply MS_same; apply mach_same_log|].
+  unfold dev_alloc. destruct (negb _); [apply MS_same; [apply mach_same_log|res_tac]|]. destruct (size <=? 0); [apply MS_same; [apply mach_same_log|res_tac]|].
   destruct (dev_fault (m_fault m) (m_fired m) 0) as ((f1 & fired1) & r).
   assert (H1 : mach_same m (set_fault m f1 fired1)) by apply mach_same_set_fault.
-  destruct (negb (r =? 0)); [apply MS_same; eapply mach_same_trans; [exact H1|apply mach_same_log]|].
-  destruct (_ && _); [apply MS_same; eapply mach_same_trans; [exact H1|apply mach_same_log]|].
-  destruct (_ <? _); [apply MS_same; eapply mach_same_trans; [exact H1|apply mach_same_log]|].
+  destruct (negb (r =? 0)); [apply MS_same; [eapply mach_same_trans; [exact H1|apply mach_same_log]|res_tac]|].
+  destruct (_ && _); [apply MS_same; [eapply mach_same_trans; [exact H1|apply mach_same_log]|res_tac]|].
+  destruct (_ <? _); [apply MS_same; [eapply mach_same_trans; [exact H1|apply mach_same_log]|res_tac]|].
   destruct (DEV_TABLE <=? _).
-  - cbn [fst]. split; [cbn; lia|]. intros d' Hd _. cbn in Hd. exists d'. auto.
-  - cbn [fst]. split; [cbn; lia|]. intros d' Hd Hi. cbn in Hd. apply in_app_iff in Hd. destruct Hd as [Hd|[<-|[]]]; [exists d'; auto|]. cbn in Hi. lia.
+  - cbn [fst]. split; [split; [cbn; lia|apply res_keep_eq; reflexivity]|]. intros d' Hd _. cbn in Hd. exists d'. auto.
+  - cbn [fst]. split; [split; [cbn; lia|apply res_keep_eq; reflexivity]|]. intros d' Hd Hi. cbn in Hd. apply in_app_iff in Hd. destruct Hd as [Hd|[<-|[]]]; [exists d'; auto|]. cbn in Hi. lia.
 Qed.
 
 Lemma alloc_vk_MS m ty size ded : MS m (fst (alloc_vk c m ty size ded)).
 Proof.
   unfold alloc_vk. pose proof (dev_alloc_MS m ty size ded) as D. destruct (dev_alloc c m ty size ded) as ((m1 & code) & id). cbn [fst] in D.
-  unfold Budget.alloc_mem. destruct (Budget.maxCount _ <? _); [cbn; apply MS_same; apply mach_same_set_bud|].
-  match goal with |- context [match ?x with Some _ => _ | None => _ end] => destruct x as [s2|] end; [|cbn; apply MS_same; apply mach_same_set_bud].
+  unfold Budget.alloc_mem. destruct (Budget.maxCount _ <? _); [cbn; apply MS_same; [apply mach_same_set_bud|res_tac]|].
+  match goal with |- context [match ?x with Some _ => _ | None => _ end] => destruct x as [s2|] end; [|cbn; apply MS_same; [apply mach_same_set_bud|res_tac]].
   destruct (negb (code =? 0)).
-  - destruct (Budget.remove_block _ _ _) as (s3 & p). cbn. eapply MS_trans; [exact D|apply MS_same; apply mach_same_set_bud].
-  - cbn. eapply MS_trans; [exact D|apply MS_same; apply mach_same_set_bud].
+  - destruct (Budget.remove_block _ _ _) as (s3 & p). cbn. eapply MS_trans; [exact D|apply MS_same; [apply mach_same_set_bud|res_tac]].
+  - cbn. eapply MS_trans; [exact D|apply MS_same; [apply mach_same_set_bud|res_tac]].
 Qed.
 
 
@@ -92,17 +112,56 @@ Lemma sort_list_m v lr : v_m (sort_list v lr) = v_m v.
 Proof. unfold sort_list. destruct (get_blist v lr); [apply set_blist_m|reflexivity]. Qed.
 
 Lemma sm_sub_MS m mem s : MS m (fst (sm_sub m mem s)).
-Proof. apply MS_same. apply sm_sub_same. Qed.
+Proof. apply MS_same; [apply sm_sub_same|]. unfold sm_sub, dev_unmap. destruct (SyncMem.do_sub s) as ((s1 & r) & cs). destruct cs; res_tac. Qed.
 Lemma sm_map_MS m mem s : MS m (fst (fst (sm_map c m mem s))).
-Proof. apply MS_same. apply sm_map_same. Qed.
+Proof.
+  apply MS_same; [apply sm_map_same|]. unfold sm_map. assert (R : res_keep m (fst (dev_map c m mem))) by (unfold dev_map; res_tac).
+  destruct (dev_map c m mem) as (m1 & code). cbn [fst] in R. destruct (SyncMem.do_map s 1 _) as ((s1 & r) & cs). destruct cs; cbn [fst]; [apply res_keep_refl|exact R].
+Qed.
 Lemma sm_unmap_MS m mem s : MS m (fst (fst (sm_unmap m mem s))).
-Proof. apply MS_same. apply sm_unmap_same. Qed.
+Proof. apply MS_same; [apply sm_unmap_same|]. unfold sm_unmap, dev_unmap. destruct (SyncMem.do_unmap s 1) as ((s1 & r) & cs). destruct cs; res_tac. Qed.
 Lemma heap_budget_MS m h : MS m (fst (fst (heap_budget c m h))).
-Proof. apply MS_same. apply heap_budget_same. Qed.
+Proof. apply MS_same; [apply heap_budget_same|]. unfold heap_budget. destruct (Budget.heap_budget _ _ _ _) as ((b' & r) & cs). destruct r; res_tac. Qed.
 Lemma remove_allocation_MS m h size : MS m (fst (remove_allocation c m h size)).
-Proof. apply MS_same. apply remove_allocation_same. Qed.
+Proof. apply MS_same; [apply remove_allocation_same|]. unfold remove_allocation. destruct (Budget.remove_alloc _ _ _ _) as ((b' & r) & cs). res_tac. Qed.
 Lemma add_allocation_MS m h size : MS m (add_allocation c m h size).
-Proof. apply MS_same. apply add_allocation_same. Qed.
+Proof. apply MS_same; [apply add_allocation_same|]. unfold add_allocation. destruct (Budget.add_alloc _ _ _ _) as ((b' & r) & cs). res_tac. Qed.
+
+Lemma replace_res_in l nr r' : In r' (replace_res l nr) -> exists r, In r l /\ rs_id r = rs_id r'.
+Proof.
+  induction l as [|x l IH]; cbn; [tauto|]. destruct (rs_id x =? rs_id nr) eqn:E.
+  - apply Z.eqb_eq in E. intros [<-|H]; [exists x; auto|exists r'; auto].
+  - intros [<-|H]; [exists x; auto|]. destruct (IH H) as (r & Hr & Er). eauto.
+Qed.
+
+Lemma remove_res_in l id r : In r (remove_res l id) -> In r l.
+Proof. induction l as [|x l IH]; cbn; [tauto|]. destruct (rs_id x =? id); [auto|]. intros [->|H]; auto. Qed.
+
+Lemma dev_bind_MS m image res mem off : MS m (fst (dev_bind m image res mem off)).
+Proof.
+  apply MS_same; [apply dev_bind_same|]. unfold dev_bind. destruct (find_res _ _); [|res_tac]. destruct (find_mem _ _); [|res_tac]. destruct (dev_fault _ _ _) as ((f1 & fi) & code).
+  destruct (negb (code =? 0)); [res_tac|]. cbn. split; [cbn; lia|]. cbn. intros r' H. left. eapply replace_res_in; eauto.
+Qed.
+Lemma dev_create_res_MS m image kind req : MS m (fst (fst (dev_create_res m image kind req))).
+Proof.
+  apply MS_same; [apply dev_create_res_same|]. unfold dev_create_res. destruct (dev_fault _ _ _) as ((f1 & fi) & code).
+  destruct (negb (code =? 0)); [res_tac|]. cbn. destruct (DEV_TABLE <=? _); cbn.
+  - split; [cbn; lia|]. cbn. intros r' H. left. eauto.
+  - split; [cbn; lia|]. cbn. intros r' H. apply in_app_iff in H. destruct H as [H|[<-|[]]]; [left; eauto|right; cbn; lia].
+Qed.
+Lemma dev_requirements_MS m image id : MS m (fst (dev_requirements m image id)).
+Proof. apply MS_same; [apply dev_requirements_same|]. unfold dev_requirements. res_tac. Qed.
+Lemma dev_destroy_res_MS m image id : MS m (dev_destroy_res m image id).
+Proof.
+  apply MS_same; [apply dev_destroy_res_same|]. unfold dev_destroy_res. split; [cbn; lia|]. cbn. intros r' H. left. exists r'. split; [eapply remove_res_in; eauto|reflexivity].
+Qed.
+Lemma dev_flush_MS m inval id off size : MS m (fst (dev_flush m inval id off size)).
+Proof. apply MS_same; [apply dev_flush_same|]. unfold dev_flush. destruct (find_mem _ _); [|res_tac]. destruct (dev_fault _ _ _) as ((f1 & fi) & code). res_tac. Qed.
+Lemma stats_budgets_MS n : forall m h, MS m (stats_budgets c m n h).
+Proof.
+  induction n as [|k IH]; intros m h; cbn [stats_budgets]; [apply MS_refl|].
+  pose proof (heap_budget_MS m h) as H. destruct (heap_budget c m h) as ((m1 & u) & b). cbn [fst] in H. eapply MS_trans; [exact H|apply IH].
+Qed.
 
 Lemma create_block_M v lr size : MSv v (fst (create_block c v lr size)).
 Proof.
@@ -419,24 +478,24 @@ Lemma bind_memory_M v slot image res off : MSv v (fst (bind_memory v slot image 
 Proof.
   unfold bind_memory. destruct (res =? 0); [apply MSv_refl|]. destruct (negb _); [apply MSv_refl|].
   match goal with |- context [match ?t with OK _ => _ | ER _ => _ | PANIC => _ | STUCK => _ end] => destruct t as [o|code| |] end; try apply MSv_refl.
-  pose proof (MS_same _ _ (dev_bind_same (v_m v) image res (a_mem (get_alloc v slot)) o)) as H.
+  pose proof (dev_bind_MS (v_m v) image res (a_mem (get_alloc v slot)) o) as H.
   destruct (dev_bind _ _ _ _ _) as (m1 & code). cbn [fst] in H. msfin.
 Qed.
 
 Lemma create_resource_M v slot image kind sub devreq resusage minAlign usage flags req pref ctb pool :
   MSv v (fst (create_resource c v slot image kind sub devreq resusage minAlign usage flags req pref ctb pool)).
 Proof.
-  unfold create_resource. pose proof (MS_same _ _ (dev_create_res_same (v_m v) image kind devreq)) as H1.
+  unfold create_resource. pose proof (dev_create_res_MS (v_m v) image kind devreq) as H1.
   destruct (dev_create_res (v_m v) image kind devreq) as ((m1 & code) & id). cbn [fst] in H1.
   destruct (negb _); [msfin|].
   assert (H2 : MS m1 (fst (fst (fst (get_requirements c m1 image id))))).
-  { unfold get_requirements. pose proof (MS_same _ _ (dev_requirements_same m1 image id)) as Hq. destruct (dev_requirements m1 image id) as (mq & rq). destruct (11 <=? _); exact Hq. }
+  { unfold get_requirements. pose proof (dev_requirements_MS m1 image id) as Hq. destruct (dev_requirements m1 image id) as (mq & rq). destruct (11 <=? _); exact Hq. }
   destruct (get_requirements c m1 image id) as (((m2 & rq) & rd) & pd). cbn [fst] in H2.
   match goal with |- context [multi_allocate c (set_m v m2) ?a1 ?a2 ?a3 ?a4 ?a5 ?a6 ?a7 usage flags req pref ctb pool sub [slot]] =>
     pose proof (multi_allocate_M (set_m v m2) a1 a2 a3 a4 a5 a6 a7 usage flags req pref ctb pool sub [slot]) as H;
     destruct (multi_allocate c (set_m v m2) a1 a2 a3 a4 a5 a6 a7 usage flags req pref ctb pool sub [slot]) as (v3 & r) end.
   cbn [fst] in H. assert (K3 : MSv v v3) by (unfold MSv in *; cbn [v_m set_m] in H; eapply MS_trans; [exact H1|]; eapply MS_trans; [exact H2|exact H]).
-  pose proof (MS_same _ _ (dev_destroy_res_same (v_m v3) image id)) as Hd3.
+  pose proof (dev_destroy_res_MS (v_m v3) image id) as Hd3.
   destruct r as [[]|acode| |]; cbn [fst]; [|unfold MSv in *; cbn [v_m set_m]; eapply MS_trans; eauto|exact K3|exact K3].
   destruct (fl flags F_DONTBIND); [exact K3|].
   pose proof (bind_memory_M v3 slot image id 0) as H4. destruct (bind_memory v3 slot image id 0) as (v4 & br). cbn [fst] in H4.
@@ -444,7 +503,7 @@ Proof.
   destruct br as [[]|bcode| |]; cbn [fst]; try exact K4.
   assert (H5 : MSv v4 (fst (if a_allocated (get_alloc v4 slot) then multi_free c v4 [slot] else (v4, OK tt)))) by (destruct (a_allocated _); [apply multi_free_M|apply MSv_refl]).
   destruct (if a_allocated (get_alloc v4 slot) then multi_free c v4 [slot] else (v4, OK tt)) as (v5 & fr). cbn [fst] in *.
-  pose proof (MS_same _ _ (dev_destroy_res_same (v_m v5) image id)) as Hd5.
+  pose proof (dev_destroy_res_MS (v_m v5) image id) as Hd5.
   unfold MSv in *. cbn [v_m set_m]. eapply MS_trans; [exact K4|]. eapply MS_trans; [exact H5|exact Hd5].
 Qed.
 
@@ -507,27 +566,27 @@ Proof.
   - apply allocation_map_M.
   - apply allocation_unmap_M.
   - unfold allocation_flush. destruct (negb _); [apply MSv_refl|]. destruct (flush_range c v _ off size) as [[(ro & rs)|]|code| |]; try apply MSv_refl.
-    pose proof (MS_same _ _ (dev_flush_same (v_m v) inval (a_mem (get_alloc v slot)) ro rs)) as H. destruct (dev_flush _ _ _ _ _) as (m1 & code). cbn [fst] in H. msfin.
+    pose proof (dev_flush_MS (v_m v) inval (a_mem (get_alloc v slot)) ro rs) as H. destruct (dev_flush _ _ _ _ _) as (m1 & code). cbn [fst] in H. msfin.
   - unfold harness_rw. pose proof (allocation_map_M v slot) as H. destruct (allocation_map c v slot) as (v1 & r). cbn [fst] in H.
     destruct r as [[]|code| |]; cbn [fst]; try exact H.
     pose proof (allocation_unmap_M v1 slot) as H2. destruct (allocation_unmap v1 slot) as (v2 & ur). cbn [fst] in *. eapply MSv_trans; eauto.
   - apply create_pool_M.
   - apply pool_destroy_M.
-  - unfold build_stats_string. destruct (calculate_statistics c v); [|apply MSv_refl]. cbn [fst]. unfold MSv. cbn [v_m set_m]. apply MS_same. apply stats_budgets_same.
+  - unfold build_stats_string. destruct (calculate_statistics c v); [|apply MSv_refl]. cbn [fst]. unfold MSv. cbn [v_m set_m]. apply stats_budgets_MS.
   - unfold allocator_destroy. destruct (existsb _ (v_ded v)); [apply MSv_refl|]. destruct (v_pools v); [|apply MSv_refl]. destruct (existsb _ _); [apply MSv_refl|apply destroy_lists_M].
   - unfold create_buffer. destruct (a_allocated _); [apply MSv_refl|]. destruct (_ && _); [apply MSv_refl|]. destruct (size =? 0); [apply MSv_refl|].
     destruct (_ && _); [apply MSv_refl|apply create_resource_M].
   - unfold create_image. destruct (a_allocated _); [apply MSv_refl|]. destruct (width =? 0); [apply MSv_refl|apply create_resource_M].
   - unfold destroy_with_resource. destruct (res =? 0); [apply allocation_free_M|].
-    apply (MSv_trans v (set_m v (dev_destroy_res (v_m v) image res))); [apply (MS_same _ _ (dev_destroy_res_same (v_m v) image res))|apply allocation_free_M].
+    apply (MSv_trans v (set_m v (dev_destroy_res (v_m v) image res))); [apply (dev_destroy_res_MS (v_m v) image res)|apply allocation_free_M].
   - unfold allocate_for_resource. destruct (res =? 0); [apply MSv_refl|]. destruct (a_allocated _); [apply MSv_refl|].
     assert (H2 : MS (v_m v) (fst (fst (fst (get_requirements c (v_m v) image res))))).
-    { unfold get_requirements. pose proof (MS_same _ _ (dev_requirements_same (v_m v) image res)) as Hq. destruct (dev_requirements (v_m v) image res) as (mq & rq). destruct (11 <=? _); exact Hq. }
+    { unfold get_requirements. pose proof (dev_requirements_MS (v_m v) image res) as Hq. destruct (dev_requirements (v_m v) image res) as (mq & rq). destruct (11 <=? _); exact Hq. }
     destruct (get_requirements c (v_m v) image res) as (((m1 & rq) & rd) & pd). cbn [fst] in H2.
     eapply MSv_trans; [|apply multi_allocate_M]. msfin.
   - apply bind_memory_M.
-  - unfold raw_create. pose proof (MS_same _ _ (dev_create_res_same (v_m v) image kind devreq)) as H. destruct (dev_create_res _ _ _ _) as ((m1 & code) & id). cbn [fst] in H. msfin.
-  - unfold raw_destroy. cbn [fst]. unfold MSv. cbn [v_m set_m]. apply MS_same. apply dev_destroy_res_same.
+  - unfold raw_create. pose proof (dev_create_res_MS (v_m v) image kind devreq) as H. destruct (dev_create_res _ _ _ _) as ((m1 & code) & id). cbn [fst] in H. msfin.
+  - unfold raw_destroy. cbn [fst]. unfold MSv. cbn [v_m set_m]. apply dev_destroy_res_MS.
 Qed.
 
 (* one API call: an object of the state after with an old id is an object of the state before, same memory type and size *)
@@ -570,6 +629,51 @@ Proof.
   destruct (step_mems_stable c v o f v' r calls d' Hs Hin' ltac:(lia)) as (d0 & Hin0 & E0).
   assert (Hid0 : dm_id d0 = id) by (unfold mem_key in E0; injection E0 as E1 _ _; lia).
   rewrite (find_mem_key_unique _ _ _ _ (vi_dev_nodup _ _ _ _ HI) Hf Hin0 Hid0) in E0. symmetry. exact E0.
+Qed.
+
+(* resource handles are positive: the counter behind vkCreateBuffer / vkCreateImage never goes down *)
+Theorem reachA_res_nonneg v : reachA c v -> 0 <= m_next_res (v_m v).
+Proof.
+  induction 1 as [nslots v H Hn|v o f v' r calls R IH Hok Hd Hs Hp Hk].
+  - unfold vam_new in H. destruct (negb _); [discriminate|]. destruct (negb _); [discriminate|]. injection H as <-. cbn. lia.
+  - unfold step in Hs. set (v0 := set_m v (clear_calls (set_fault (v_m v) f 0))) in *. pose proof (exec_M c v0 o) as M.
+    destruct (exec c v0 o) as (v1 & r1). cbn [fst] in M. injection Hs as <- _ _. destruct M as ((_ & (M & _)) & _). cbn in *. lia.
+Qed.
+
+(* every live buffer/image has an id the creation counter has passed: the next vkCreateBuffer/Image returns a fresh handle *)
+Definition ResInv (m : mach) : Prop := Forall (fun r => rs_id r <= m_next_res m) (m_res m).
+
+Lemma res_keep_inv m m' : res_keep m m' -> ResInv m -> ResInv m'.
+Proof.
+  intros (K1 & K2) H. unfold ResInv in *. rewrite Forall_forall in *. intros r' Hr'. destruct (K2 r' Hr') as [(r & Hr & E)|Hle]; [|exact Hle].
+  specialize (H r Hr). lia.
+Qed.
+
+Theorem reachA_res_inv v : reachA c v -> ResInv (v_m v).
+Proof.
+  induction 1 as [nslots v H Hn|v o f v' r calls R IH Hok Hd Hs Hp Hk].
+  - unfold vam_new in H. destruct (negb _); [discriminate|]. destruct (negb _); [discriminate|]. injection H as <-. constructor.
+  - unfold step in Hs. set (v0 := set_m v (clear_calls (set_fault (v_m v) f 0))) in *. pose proof (exec_M c v0 o) as M.
+    destruct (exec c v0 o) as (v1 & r1). cbn [fst] in M. injection Hs as <- _ _. destruct M as ((_ & M) & _).
+    apply (res_keep_inv _ _ M) in IH. exact IH.
+Qed.
+
+(* the requirements the device reports for a resource right after creating it are the ones it was created with *)
+Lemma find_res_fresh l id : Forall (fun r => rs_id r < id) l -> find_res l id = None.
+Proof. induction 1 as [|x l Hx _ IH]; cbn; [reflexivity|]. destruct (rs_id x =? id) eqn:E; [apply Z.eqb_eq in E; lia|exact IH]. Qed.
+
+Lemma find_res_snoc l r : Forall (fun x => rs_id x < rs_id r) l -> find_res (l ++ [r]) (rs_id r) = Some r.
+Proof. induction 1 as [|x l Hx _ IH]; cbn; [rewrite Z.eqb_refl; reflexivity|]. destruct (rs_id x =? rs_id r) eqn:E; [apply Z.eqb_eq in E; lia|exact IH]. Qed.
+
+Lemma created_res_requirements m image kind req m1 id :
+  ResInv m -> dev_create_res m image kind req = (m1, 0, id) ->
+  exists r, find_res (m_res m1) id = Some r /\ rs_req r = req /\ rs_kind r = kind /\ rs_bound r = false.
+Proof.
+  intros HR. unfold dev_create_res. destruct (dev_fault _ _ _) as ((f1 & fi) & code). destruct (negb (code =? 0)) eqn:Ec; [intros E; injection E as _ E0 _; subst code; discriminate|].
+  cbn [m_next_res set_fault m_res]. destruct (DEV_TABLE <=? _); [intros E; injection E as _ E0 _; unfold VK_OOHM in E0; discriminate|].
+  intros E. injection E as <- <-. cbn [m_res log_call set_res]. exists (mkDres (m_next_res m + 1) kind req false 0 0). split; [|cbn; auto].
+  apply (find_res_snoc (m_res m) (mkDres (m_next_res m + 1) kind req false 0 0)). cbn [rs_id]. unfold ResInv in HR.
+  rewrite Forall_forall in *. intros x Hx. specialize (HR x Hx). lia.
 Qed.
 
 End Reach.
